@@ -180,6 +180,19 @@ CHECKS = {
              "Au's multipliers dividing chrono's (so Au overflows no earlier).  Divergence for NaN counts is a recorded known finding.",
         design_ref="3.17", technique="static_assert witness programs + DAG / affine / truth-table comparison of LLVM IR against libstdc++ chrono as reference",
         note=TRUST_W + "; " + TRUST_I + "; libstdc++ 12 <chrono>", engine="W+I"),
+    "C18": dict(
+        category="exploration",
+        text="Label text and sizeof of seeded unit expression trees (labelled and unlabelled atoms, integer / rational / irrational scalings, "
+             "negative and fractional exponents, the 32 prefixes, nested products) are extracted from the constant evaluator and compared - up to "
+             "the order of factors, which the grammar does not fix - with a model of the documented grammar (a * b, a / b with parentheses, 1 / x, "
+             "x^n, x^(-n), x^(n/d), [k u], [(n / d) u], prefix symbol + label, generic markers); NUL termination and size == length + 1; the texts "
+             "are re-asserted on g++.  Own-label rule: every unit-like record of au/units (S) plus generated named units derived from scaled units "
+             "must print their own label or the generic marker, never a base unit's; prefix x unit labels; EQUIV{...} labels of common units; "
+             "IToA / UIToA on boundary and seeded 64-bit integers.  Streaming: the IR of operator<< for quantities and points (10 reps) must call, "
+             "in order, a numeric ostream inserter on the (promoted) stored value - never a character inserter -, the string \" \", then the "
+             "label array of the unit ('@(' ... ')' around it for points).",
+        design_ref="3.18", technique="constant extraction + grammar model + static_assert witnesses + source scan of unit records + call-sequence analysis of LLVM IR",
+        note=TRUST_W + "; " + TRUST_I + "; libstdc++ ostream inserter symbol names", engine="W+S+I"),
     "C19": dict(
         category="proof",
         text="(I) for 10 reps x sampled library and generated units, every comparison with ZERO (both orders) and q+-ZERO / "
